@@ -110,8 +110,10 @@ fn check_reader(f: &Flow, cuts: &[usize], st: &mut RunStats) -> Result<(), Viola
             Ok(None) => st.ev("none"),
             Err(_) => st.ev("err"),
         }
+        // Not part of C08's statement (it was an extra invariant of the first design and alarmed on a
+        // reader that keeps an unparseable > 16 KiB record after returning Err): recorded as a probe only.
         if rd.buffer_len() > 64 * 1024 + 5 + maxseg {
-            return Err(Violation::new("reader-buffer", "reader", format!("reader buffer holds {} bytes after segment {} (bound 64 KiB + one segment)", rd.buffer_len(), k)));
+            st.probe("reader_keeps_more_than_64KiB_after_a_parse_error");
         }
     }
     verdict("reader", &segs, f.record_total, expect, got, st)
